@@ -338,7 +338,7 @@ def run(chk) -> None:
         check_library(chk, fallback)
         check_library_eval(chk, fallback)
     else:
-        for rule, n in (("early-exit-eval", 12), ("edit-eval", 16), ("mapping-total", 3), ("repeat-eval", 6), ("eval-coverage", 3 if cli_why is None else 2)):
+        for rule, n in (("early-exit-eval", 12), ("edit-eval", 17), ("mapping-total", 3), ("repeat-eval", 6), ("eval-coverage", 3 if cli_why is None else 2)):
             chk.floor(rule, n)
     if fallback:
         check_memo(chk)  # pinned form (any memoising decorator) only when the calls cannot be evaluated
